@@ -369,17 +369,23 @@ PacketOp(me, c0, f0, x0, now, p) ==
              ELSE Out("ok", "ok", a.next, f0, IF p.typ = "execute" THEN "running" ELSE x0)
 
 (* executeAndFinishDKG, outcome of the kyber protocol chosen by the environment *)
-CompleteRec(d) == [d EXCEPT !.st = "Complete", !.fg = d.rem \cup d.join, !.hasfg = TRUE, !.share = TRUE,
-                            !.seed = IF d.seed = "none" THEN "s1" ELSE d.seed]
-ExecOp(c0, f0, x0, now, out) ==
+\* qual = the qualified set the kyber protocol ended with ({"*"} = every participant; a peer that is too
+\* slow is evicted by the others, which the environment may let happen)
+AllQual == {"*"}
+CompleteRec(d, qual) == [d EXCEPT !.st = "Complete", !.fg = IF qual = AllQual THEN d.rem \cup d.join ELSE qual,
+                                  !.hasfg = TRUE, !.share = TRUE,
+                                  !.seed = IF d.seed = "none" THEN "s1" ELSE d.seed]
+ExecOpQ(c0, f0, x0, now, out, qual) ==
   IF x0 # "running" THEN Out("ok", "no execution", c0, f0, x0)
   ELSE IF out = "complete"
     THEN IF c0.st = "Executing" /\ ~HasTimedOut(c0, now)
-           THEN Out("ok", "SaveFinished", CompleteRec(c0), CompleteRec(c0), "none")
+           THEN Out("ok", "SaveFinished", CompleteRec(c0, qual), CompleteRec(c0, qual), "none")
            ELSE Out("ok", "Complete() refused", c0, f0, "none")
     ELSE IF c0.st = "Executing"
            THEN Out("ok", "Failed", [c0 EXCEPT !.st = "Failed"], f0, "none")
            ELSE Out("ok", "Failed() refused", c0, f0, "none")
+
+ExecOp(c0, f0, x0, now, out) == ExecOpQ(c0, f0, x0, now, out, AllQual)
 
 (* wall clock passes every "short" timeout issued so far; a running execution *)
 (* takes its `time.After(time.Until(current.Timeout))' branch                  *)
